@@ -468,8 +468,8 @@ def make_config(rng, i, optimiser=None):
 
 def build_groups(ctx):
     rng = ctx.rng
-    n_single = ctx.budget(6, 60)
-    n_par = ctx.budget(1, 12)
+    n_single = ctx.budget(6, 48)
+    n_par = ctx.budget(1, 10)
     n_api = ctx.budget(1, 4)
     if os.environ.get('C14_SIZES'):      # debugging aid: "single,parallel,facade"
         n_single, n_par, n_api = [int(x) for x in os.environ['C14_SIZES'].split(',')]
@@ -717,7 +717,7 @@ def run(ctx):
             cases.append(case_to_coq(None, base_x, [('CRepeat', bad)]))
             ctx.canaries += 1
             break
-    verdicts = ctx.coq_cases('runs', REQ, FN, cases, NVERD, shard=3, timeout=1200)
+    verdicts = ctx.coq_cases('runs', REQ, FN, cases, NVERD, shard=ctx.pick(3, 8), timeout=1200)
     if canary_at is not None and not verdicts[canary_at][1 + CLAUSES.index('CRepeat')]:
         ctx.canaries_caught += 1
     for gi, (rs, tags, at, n) in built.items():
@@ -740,6 +740,12 @@ def run(ctx):
         if g['family'] == 'facade':
             ctx.notes.append('facade group %s: GOLEM(n_jobs=...) reached the requirements as n_jobs=%s, mode=%s' % (
                 g['name'], sorted({r.get('facade_n_jobs_in_requirements') for r in rs}), sorted({r.get('facade_mode') for r in rs})))
+    tally = {}
+    for v in ctx.violations:
+        kk = '%s/%s/%s' % (v['group'], (v['case'] or {}).get('clause'), v['finding_key'])
+        tally[kk] = tally.get(kk, 0) + 1
+    if tally:
+        ctx.notes.append('violations by family/clause/finding key: ' + json.dumps(tally, sort_keys=True))
     for gi in list(built)[:4]:
         ctx.sample(summarise(groups[gi], built[gi][0]))
 
